@@ -20,7 +20,7 @@ RULE = ('programs over Ret | Raise | Req(lock/unlock/get-config, datastore) | Se
         'real with-blocks; every program of size <= N over the alphabet {pass, raise, get-config} x {locked(running), '
         'locked(candidate), try} x Seq (Seq right-nested, the semantics being associative) is run against every answer '
         'script over {ok, error, warning} for the requests it makes: all scripts for N <= 3 (quick) / 4 (thorough), scripts with '
-        'at most 2 (quick) / 3 (thorough) non-ok answers for N <= 5, at most 2 for N = 6 (thorough: all programs; quick: 100 '
+        'at most 2 (quick) / 3 (thorough) non-ok answers for N <= 5, at most 2 for N = 6 (thorough: all programs; quick: 40 '
         'sampled) and 2000 sampled programs of size 7 (thorough); manager mode ALL; plus random '
         'programs up to size 14 with explicit lock/unlock requests, four datastore names, modes NONE/ERRORS/ALL, answers '
         'incl. warning+error and exempt messages with a user exempt pattern. A case is (program, answer script, mode, '
@@ -30,7 +30,13 @@ RULE = ('programs over Ret | Raise | Req(lock/unlock/get-config, datastore) | Se
         'shapes in the random block. Asynchronous bodies: every body of <= 3 statements over {pass, raise, get-config, '
         'areq(manager async_mode, dropped), areq(RPC object, dropped), areq(kept)} inside one or two lock contexts x '
         'delivery schedules (reply held until the next synchronous request / delivered right after the request / all) x '
-        'answer faults, on a threaded session with a garbage collection between statements; plus random ones.')
+        'answer faults, on a threaded session with a garbage collection between statements; plus random ones. '
+        'Re-entered context objects: `R = m.locked(t)` kept and entered 2 or 3 times in sequence (every combination of entry '
+        'bodies over {pass, raise, get-config} and caught / not caught; alone, inside another context, with nested contexts in '
+        'the entries, before / after a fresh context) x every answer script with <= 2 (thorough: 3) non-ok answers, every reply '
+        'shape on the first and on the second entry\'s lock; `reuse` also in the random programs. Device profiles: every '
+        'profile module of ncclient/devices (14) x {all scripts over ok/error/warning/warning+error for a body with a request '
+        'and a raising body, a re-entered context object, every reply shape on the lock and on the unlock, random programs}.')
 ASSUMES = ['a severity is "error" when its text is exactly `error` (C06 reading; a padded severity, which the schema does not allow, is none)',
            'the server answers in the order of the requests (RFC 6241 pipelining): the reply to an asynchronous request never '
            'arrives after the reply to a later synchronous one',
@@ -42,14 +48,22 @@ TRUSTED = ['modelled, not verified: the with-statement protocol of CPython (__en
 DATASTORES = ['running', 'candidate', 'startup', 'x-store']
 KINDS = {0: 'lock', 1: 'unlock', 2: 'get-config'}
 ANS = {'ok': [], 'err': [('error', 'e')], 'warn': [('warning', 'w')], 'we': [('warning', 'w'), ('error', 'e')],
-       'ex': [('error', 'Exempt me')], 'ew': [('error', 'e'), ('warning', 'w')], 'abs': [(None, 'nosev')]}
+       'ex': [('error', 'Exempt me')], 'ew': [('error', 'e'), ('warning', 'w')], 'abs': [(None, 'nosev')],
+       'vl': [('error', 'VLAN with the same name exists ')]}     # a message the nexus profile itself exempts
 
 # ------------------------------------------------------------------ programs
 # ('areq', kind, datastore, how): an asynchronous request; how 0 = through the manager switched to async_mode, result
 # dropped; 1 = an RPC object built with async_mode=True, dropped; 2 = through the manager, the RPC object is kept
+# ('reuse', datastore, [[caught, body], ...]): ONE context object `R = m.locked(datastore)` kept and entered once per
+# entry, one after the other (`with R: body`); caught = 1: that with-statement stands in try / except Exception: pass
+# (a retry loop).  Model: LockCtx.Reuse.
+def entries(p):
+    return [e[1] for e in p[2]]
+
 def size(p):
     k = p[0]
     if k in ('ret', 'raise', 'req', 'areq'): return 1
+    if k == 'reuse': return 1 + sum(1 + size(b) for b in entries(p))
     if k == 'seq': return 1 + size(p[1]) + size(p[2])
     if k == 'locked': return 1 + size(p[2])
     return 1 + size(p[1])
@@ -60,6 +74,7 @@ def has_req(p):
     if k in ('seq',): return has_req(p[1]) or has_req(p[2])
     if k == 'try': return has_req(p[1])
     if k in ('ret', 'raise', 'areq'): return False
+    if k == 'reuse': return any(has_req(b) for b in entries(p))
     return has_req(p[2])
 
 def count_areq(p):
@@ -68,6 +83,7 @@ def count_areq(p):
     if k == 'seq': return count_areq(p[1]) + count_areq(p[2])
     if k == 'try': return count_areq(p[1])
     if k == 'locked': return count_areq(p[2])
+    if k == 'reuse': return sum(count_areq(b) for b in entries(p))
     return 0
 
 def has_areq(p):
@@ -76,11 +92,12 @@ def has_areq(p):
     if k == 'seq': return has_areq(p[1]) or has_areq(p[2])
     if k == 'try': return has_areq(p[1])
     if k == 'locked': return has_areq(p[2])
+    if k == 'reuse': return any(has_areq(b) for b in entries(p))
     return False
 
 def has_locked(p):
     k = p[0]
-    if k == 'locked': return True
+    if k in ('locked', 'reuse'): return True
     if k == 'seq': return has_locked(p[1]) or has_locked(p[2])
     if k == 'try': return has_locked(p[1])
     return False
@@ -90,7 +107,16 @@ def lock_depth(p):
     if k == 'locked': return 1 + lock_depth(p[2])
     if k == 'seq': return max(lock_depth(p[1]), lock_depth(p[2]))
     if k == 'try': return lock_depth(p[1])
+    if k == 'reuse': return 1 + max([lock_depth(b) for b in entries(p)] + [0])
     return 0
+
+def has_reuse(p):
+    k = p[0]
+    if k == 'reuse': return True
+    if k == 'seq': return has_reuse(p[1]) or has_reuse(p[2])
+    if k == 'try': return has_reuse(p[1])
+    if k == 'locked': return has_reuse(p[2])
+    return False
 
 _BY_SIZE = {}
 def progs_of_size(n):
@@ -118,6 +144,12 @@ def random_prog(rng, n, areq=False):
         if r < 0.5: return ('raise', rng.randrange(1, 4))
         return ('req', rng.choice([0, 1, 2, 2]), rng.choice(DATASTORES))
     r = rng.random()
+    if n >= 3 and rng.random() < 0.1:          # one context object entered 2-3 times
+        k = rng.choice([2, 2, 3]); left = max(k, n - 1 - k); ent = []
+        for i in range(k):
+            a = max(1, left // (k - i)) if i < k - 1 else max(1, left); left -= a
+            ent.append([int(rng.random() < 0.75), random_prog(rng, a, areq)])
+        return ('reuse', rng.choice(DATASTORES), ent)
     if r < 0.45: return ('locked', rng.choice(DATASTORES), random_prog(rng, n - 1, areq))
     if r < 0.6: return ('try', random_prog(rng, n - 1, areq))
     if n < 3: return random_prog(rng, 1, areq)
@@ -132,16 +164,17 @@ def enc_prog(p):
     if k == 'seq': return [3, enc_prog(p[1]), enc_prog(p[2])]
     if k == 'locked': return [4, p[1].encode(), enc_prog(p[2])]
     if k == 'areq': return [6, p[1], p[2].encode()]
+    if k == 'reuse': return [7, p[1].encode(), [[int(bool(c)), enc_prog(b)] for c, b in p[2]]]
     return [5, enc_prog(p[1])]
 
 def tup(p):
-    return tuple(tup(x) if isinstance(x, list) else x for x in p) if isinstance(p, (list, tuple)) else p
+    return tuple(tup(x) for x in p) if isinstance(p, (list, tuple)) else p
 
 # ------------------------------------------------------------------ compile to Python source
 def compile_prog(p):
     """Source of `def main(m, L, BodyErr, env)`; each Locked becomes a real `with m.locked(t):` block inside its own
     function (CPython allows only 20 statically nested blocks), instrumented with marks in the log L."""
-    funcs, counter = [], [0]
+    funcs, counter, slots = [], [0], [0]
     def stmts(p, ind, out):
         pad = '    ' * ind
         k = p[0]
@@ -169,12 +202,18 @@ def compile_prog(p):
         elif k == 'try':
             out.append(pad + 'try:'); stmts(p[1], ind + 1, out)
             out.append(pad + 'except Exception:'); out.append(pad + '    pass')
+        elif k == 'reuse':
+            slots[0] += 1; slot = slots[0]
+            out.append(pad + 'R[%d] = m.locked(%r)' % (slot, p[1]))        # ONE context object, kept
+            for caught, b in p[2]:
+                e = ('locked', p[1], b, slot)
+                stmts(('try', e) if caught else e, ind, out)
         else:
             counter[0] += 1; cid = counter[0]
             f = ['def ctx_%d():' % cid,
                  '    L.append(("attempt", %d, %r))' % (cid, p[1]),
                  '    try:',
-                 '        with m.locked(%r):' % p[1],
+                 ('        with m.locked(%r):' % p[1]) if len(p) < 4 else ('        with R[%d]:' % p[3]),
                  '            L.append(("body_start", %d))' % cid,
                  '            try:']
             stmts(p[2], 4, f)
@@ -190,7 +229,7 @@ def compile_prog(p):
             out.append(pad + 'ctx_%d()' % cid)
     body = []
     stmts(p, 1, body)
-    return 'def main(m, L, BodyErr, env=None):\n' + '\n'.join(funcs) + ('\n' if funcs else '') + '\n'.join(body) + '\n'
+    return 'def main(m, L, BodyErr, env=None):\n    R = {}\n' + '\n'.join(funcs) + ('\n' if funcs else '') + '\n'.join(body) + '\n'
 
 _CODE = {}
 def compiled(p):
@@ -322,24 +361,43 @@ def make_server(st, pats):
         return [reply]
     return server
 
+# the device profiles (`device_params={'name': ...}`): the modules of ncclient/devices.  A case names one with the key
+# 'profile' (absent = default).  Profiles differ in what RPC._request RETURNS (junos, alu, sros: transform_reply() ->
+# an NCElement instead of the RPCReply), in the reply filter (perform_qualify_check), in handle_raw_dispatch and in their
+# own exempt messages (nexus) - none of which is mentioned by the property: the with-block behaves the same under each.
+PROFILES = ['default', 'alu', 'ciena', 'csr', 'ericsson', 'h3c', 'hpcomware', 'huawei', 'huaweiyang', 'iosxe', 'iosxr',
+            'junos', 'nexus', 'sros']
+
+def profiles_present():
+    """the profile modules the tree under test really has (so that a new profile is run too)"""
+    import pkgutil, ncclient.devices
+    found = sorted(m.name for m in pkgutil.iter_modules(ncclient.devices.__path__) if not m.name.startswith('_'))
+    return ['default'] + [x for x in found if x != 'default']
+
 _DH = {}
-def device_handler(pats):
-    key = tuple(pats)
+def device_handler(pats, profile=None):
+    key = (tuple(pats), profile or 'default')
     if key not in _DH:
         from ncclient import manager
-        _DH[key] = manager.make_device_handler(None, list(pats))
+        _DH[key] = manager.make_device_handler(None if not profile or profile == 'default' else {'name': profile}, list(pats))
     return _DH[key]
 
+def eff_pats(case):
+    """the exempt patterns in force: the profile's own list (a constant of the profile, read from its class) + the user's"""
+    prof = case.get('profile')
+    if not prof or prof == 'default': return list(case['pats'])
+    return list(type(device_handler([], prof))._EXEMPT_ERRORS) + list(case['pats'])
+
 _ENV = {}
-def _env(mode, pats):
-    """One Manager over one synchronous fake session per (mode, patterns); the scripted server reads its per-run state from `st`."""
-    key = (mode, tuple(pats))
+def _env(mode, pats, profile=None):
+    """One Manager over one synchronous fake session per (mode, patterns, profile); the scripted server reads its per-run state from `st`."""
+    key = (mode, tuple(pats), profile or 'default')
     if key in _ENV: return _ENV[key]
     from ncclient import manager
     from harness.fakesession_rpc import make_session
     st = dict(L=None, n=0, script=[], replies=[])
-    dh = device_handler(pats)
-    s = make_session(dh, make_server(st, pats))
+    dh = device_handler(pats, profile)
+    s = make_session(dh, make_server(st, eff_pats(dict(pats=pats, profile=profile))))
     m = manager.Manager(s, dh, raise_mode=mode)
     _ENV[key] = (m, st)
     return _ENV[key]
@@ -351,8 +409,8 @@ def _wire_env(mode, pats, case):
     from ncclient.operations import Lock, Unlock, GetConfig
     from harness.asyncsession_rpc import AsyncEnv
     st = dict(L=None, n=0, script=[], replies=[])
-    dh = device_handler(pats)
-    env = AsyncEnv(dh, make_server(st, pats), coalesce=bool(case.get('coalesce')))
+    dh = device_handler(pats, case.get('profile'))
+    env = AsyncEnv(dh, make_server(st, eff_pats(case)), coalesce=bool(case.get('coalesce')))
     env.ops = {0: Lock, 1: Unlock, 2: GetConfig}
     env.schedule = list(case.get('deliver') or [])
     m = manager.Manager(env.session, dh, timeout=WIRE_TIMEOUT, raise_mode=mode)
@@ -366,7 +424,7 @@ def impl_run(case):
     p, script, mode, pats = case['prog'], case['answers'], case['mode'], case['pats']
     env = None
     if on_wire(case): m, st, env = _wire_env(mode, pats, case)
-    else: m, st = _env(mode, pats)
+    else: m, st = _env(mode, pats, case.get('profile'))
     L = []
     st['L'] = L; st['n'] = 0; st['script'] = script; st['replies'] = []
     # an application that switched the manager to asynchronous mode earlier (to pipeline requests) and then enters a
@@ -444,7 +502,7 @@ def check_property(case, im):
 def model_call(case, replies=None):
     """fn 1: the rpc-errors of every answer as (severity, message); fn 2 (scripts with reply shapes): the reply TREES, read
     with xml.etree from the replies as sent (requests beyond the script are answered <ok/>: no rpc-error, like a missing entry)"""
-    pr, pats = enc_prog(case['prog']), [x.encode() for x in case['pats']]
+    pr, pats = enc_prog(case['prog']), [x.encode() for x in eff_pats(case)]
     if any(is_shape(a) for a in case['answers']):
         return [2, pr, case['mode'], pats, [node_val(read_reply(r)[2]) for r in replies]]
     return [1, pr, case['mode'], pats,
@@ -466,6 +524,8 @@ def record(ctx, c, im, label):
     ctx.hist('block', label); ctx.hist('impl_result', im['result'][0]); ctx.hist('n_requests', im['n_requests'])
     ctx.hist('lock_depth', lock_depth(c['prog'])); ctx.hist('faults', sum(1 for a in c['answers'] if a != 'ok'))
     ctx.hist('shaped_answers', sum(1 for a in c['answers'] if is_shape(a)))
+    ctx.hist('profile', c.get('profile') or 'default')
+    if has_reuse(c['prog']): ctx.hist('reused_context_objects', 'yes')
     if im.get('session') is not None:
         ctx.hist('threaded_session', 'async requests=%d' % count_areq(c['prog']))
     if ctx.evaluations % 9973 == 1: ctx.sample({'case': c, 'wire': im['wire'], 'result': im['result']})
@@ -615,6 +675,70 @@ def shape_cases(rng, thorough):
                           mode=rng.choice([0, 1, 2]), pats=rng.choice([[], ['exempt*'], ['w*'], ['*e1*', 'zz']])))
     return cases
 
+# ------------------------------------------------------------------ one context object entered several times
+RBODIES = [('ret',), ('raise', 1), ('req', 2, 'running')]
+
+def reuse_progs(thorough):
+    """`R = m.locked(t)` entered 2 or 3 times, one after the other; every combination of entry bodies over {pass, raise,
+    get-config} and of caught / not caught (3 entries: the first two caught, as in a retry loop); on its own, inside
+    another context, with a nested context on another datastore in an entry, followed by a fresh context."""
+    out = []
+    for b1, b2 in itertools.product(RBODIES, repeat=2):
+        for c1, c2 in itertools.product([1, 0], repeat=2):
+            if not thorough and (c1, c2) == (0, 1) and b1 != ('ret',): continue
+            out.append(('reuse', 'candidate', [[c1, b1], [c2, b2]]))
+    for b1, b2, b3 in itertools.product(RBODIES, repeat=3):
+        for c3 in (1, 0):
+            if not thorough and (RBODIES.index(b1) + 2 * RBODIES.index(b2) + RBODIES.index(b3) + c3) % 3: continue
+            out.append(('reuse', 'running', [[1, b1], [1, b2], [c3, b3]]))
+    for b in RBODIES:
+        out.append(('locked', 'running', ('reuse', 'candidate', [[1, b], [0, ('ret',)]])))
+        out.append(('reuse', 'candidate', [[1, ('locked', 'running', b)], [1, ('locked', 'startup', ('ret',))]]))
+        out.append(('seq', ('reuse', 'candidate', [[1, b], [1, b]]), ('locked', 'candidate', ('ret',))))
+        out.append(('seq', ('try', ('locked', 'candidate', b)), ('reuse', 'candidate', [[1, ('ret',)], [0, b]])))
+    return out
+
+def reuse_shape_cases():
+    """every reply shape as the answer to the FIRST entry's lock (refusals / grants of every layout), then to the second
+    entry's lock after a refused and after a granted first entry"""
+    p = ('reuse', 'candidate', [[1, ('ret',)], [0, ('req', 2, 'candidate')]])
+    cases = []
+    for _, sh in shape_alphabet():
+        cases.append(dict(prog=p, answers=[sh], mode=2, pats=[]))
+        cases.append(dict(prog=p, answers=['err', sh], mode=2, pats=[]))
+        cases.append(dict(prog=p, answers=['ok', 'ok', sh], mode=2, pats=[]))
+    return cases
+
+# ------------------------------------------------------------------ device profiles
+PROFILE_PROGS = [('locked', 'running', ('req', 2, 'running')), ('locked', 'candidate', ('raise', 1))]
+
+def profile_cases(rng, thorough):
+    """The with-block under every device profile of the tree under test other than the default one (which all other
+    blocks use): severity scripts, every reply shape on the lock and on the unlock, a re-entered context object, random."""
+    al = shape_alphabet()
+    cases = []
+    for prof in profiles_present():
+        if prof == 'default': continue
+        def add(p, answers, mode=2, pats=()):
+            cases.append(dict(prog=p, answers=list(answers), mode=mode, pats=list(pats), profile=prof))
+        for p, n in zip(PROFILE_PROGS, (3, 2)):
+            for script in itertools.product(['ok', 'err', 'warn', 'we'], repeat=n): add(p, script)
+        for script in itertools.product(['ok', 'err', 'warn'], repeat=3):
+            add(('reuse', 'candidate', [[1, ('ret',)], [0, ('req', 2, 'candidate')]]), script)
+        progs = SHAPE_PROGS if thorough else [SHAPE_PROGS[0]]
+        for p in progs:
+            for mode in (2,):          # the manager's mode only matters to the body's own requests: varied by the random cases
+                n = impl_run(dict(prog=p, answers=[], mode=mode, pats=[]))['n_requests']
+                for j in range(n):
+                    for _, sh in al: add(p, ['ok'] * j + [sh], mode)
+        for _, sh in al: add(PROFILE_PROGS[0], [sh])                 # shaped grant / refusal, then a body that makes a request
+        for _ in range(1500 if thorough else 40):
+            p = random_prog(rng, rng.randrange(2, 10))
+            if lock_depth(p) > 6: continue
+            add(p, [rng.choice(['ok', 'ok', 'err', 'warn', 'we', 'ex', 'vl', 'abs']) if rng.random() < 0.7 else rng.choice(al)[1]
+                    for _ in range(rng.randrange(0, 9))], rng.choice([0, 1, 2]), rng.choice([[], [], ['exempt*']]))
+    return cases
+
 # ------------------------------------------------------------------ asynchronous bodies
 ASTMTS = [('ret',), ('raise', 1), ('req', 2, 'running'), ('areq', 2, 'running', 0), ('areq', 2, 'candidate', 1), ('areq', 2, 'running', 2)]
 
@@ -690,7 +814,7 @@ def run(ctx):
     thorough = ctx.tier == 'thorough'
     F = ['err', 'warn']
     # (size bound, max non-ok answers, sample size or None = every program of that size)
-    plan = ([(3, 99, None), (5, 2, None), (6, 2, 100)] if not thorough else
+    plan = ([(3, 99, None), (5, 2, None), (6, 2, 40)] if not thorough else
             [(4, 99, None), (5, 3, None), (6, 2, None), (7, 2, 2000)])
     done = {}
     recs = []
@@ -708,14 +832,22 @@ def run(ctx):
     compare_model(ctx, recs)
     ctx.exhaustive = True
     ctx.extra['exhaustive_scope'] = ('every program of size <= %d x every answer script over {ok,error,warning}; every program of size <= %d x every '
-                                     'script with <= %d non-ok answers%s' % ((3, 5, 2, '; 100 sampled programs of size 6 x <= 2 non-ok') if not thorough
+                                     'script with <= %d non-ok answers%s' % ((3, 5, 2, '; 40 sampled programs of size 6 x <= 2 non-ok') if not thorough
                                      else (4, 5, 3, '; every program of size 6 and 2000 sampled of size 7 x <= 2 non-ok')))
-    # reply shapes; asynchronous bodies on the threaded session
+    # one context object entered 2-3 times (a retry loop): per-entry answers
+    recs = []
+    for p in reuse_progs(thorough):
+        explore(ctx, p, 2, [], F, 3 if thorough else 2, 'reuse', recs)
+    compare_model(ctx, recs)
+    evaluate(ctx, reuse_shape_cases(), 'reuse')
+    # reply shapes; the device profiles; asynchronous bodies on the threaded session
     evaluate(ctx, shape_cases(rng, thorough), 'shapes')
+    evaluate(ctx, profile_cases(rng, thorough), 'profiles')
+    ctx.extra['profiles_run'] = profiles_present()
     evaluate_threaded(ctx, async_cases(rng, thorough), 'async')
     # random: bigger programs, explicit lock/unlock requests, all modes, richer answers, exempt patterns
     cases = []
-    for _ in range(2000 if ctx.tier == 'quick' else 40000):
+    for _ in range(1500 if ctx.tier == 'quick' else 40000):
         p = random_prog(rng, rng.randrange(2, 15))
         if lock_depth(p) > 6: continue
         k = rng.randrange(0, 12)
@@ -732,7 +864,10 @@ def search(ctx, seeds):
             if not has_locked(p): continue
             for script in itertools.product(['ok', 'err', 'warn'], repeat=min(4, n)):
                 tries.append(dict(prog=p, answers=list(script), mode=2, pats=[]))
-    tries += shape_cases(rng, False)[:3000] + async_cases(rng, False)
+    for p in reuse_progs(False):
+        for script in itertools.product(['ok', 'err', 'warn'], repeat=4):
+            tries.append(dict(prog=p, answers=list(script), mode=2, pats=[]))
+    tries += profile_cases(rng, False) + shape_cases(rng, False)[:3000] + async_cases(rng, False)
     for _ in range(5000):
         p = random_prog(rng, rng.randrange(2, 12))
         tries.append(dict(prog=p, answers=[rng.choice(list(ANS)) for _ in range(rng.randrange(0, 10))], mode=rng.choice([0, 1, 2]),
@@ -749,7 +884,7 @@ def search(ctx, seeds):
 
 def norm_case(c):
     d = dict(prog=tup(c['prog']), answers=list(c['answers']), mode=c.get('mode', 2), pats=list(c.get('pats', [])))
-    for k in ('async', 'deliver', 'coalesce', 'wire'):
+    for k in ('async', 'deliver', 'coalesce', 'wire', 'profile'):
         if k in c: d[k] = c[k]
     return d
 
@@ -762,7 +897,7 @@ def replay(doc):
     im = impl_run(c)
     fs = check_property(c, im)
     print('program  :\n' + compile_prog(c['prog']))
-    print('answers  :', c['answers'], 'mode', c['mode'], 'patterns', c['pats'])
+    print('answers  :', c['answers'], 'mode', c['mode'], 'patterns', c['pats'], 'device profile', c.get('profile') or 'default')
     for i, r in enumerate(im['replies']):
         if i < len(c['answers']) and is_shape(c['answers'][i]): print('reply %-3d:' % i, repr(r))
     if im.get('session') is not None:
